@@ -251,6 +251,14 @@ def _is_normal_reduce_expr(expr: IndexLambda) -> bool:
             else:
                 return False
 
+    # every reduction variable indexes exactly one axis: an unused one
+    # multiplies the result by its trip count, a repeated one picks a diagonal
+    redn_vars_used = [idx.name
+                      for idx in expr.expr.inner_expr.index_tuple
+                      if isinstance(idx, p.Variable) and idx.name in expr.expr.bounds]
+    if sorted(redn_vars_used) != sorted(expr.expr.bounds):
+        return False
+
     return True
 
 
